@@ -153,6 +153,9 @@ class ScriptedProtocol(IProtocol):
                 if a[0] == "settimer":
                     ts = a[3] if a[2] == "abs" else now + a[3]
                     todo.append(("settimer", a[1], ts))
+                elif a[0] == "gotohere":
+                    if kind == "telem":
+                        todo.append(("goto",) + tuple(value))
                 else:
                     todo.append(a)
         for a in todo:
@@ -178,9 +181,22 @@ class ScriptedProtocol(IProtocol):
         elif k == "cancel":
             p.cancel_timer(str(a[1]))
         elif k == "send":
-            p.send_communication_command(SendMessageCommand(str(a[1]), a[2]))
+            if CTX.scenario.get("reuse_commands"):
+                # one command object used as a template and re-filled for every send
+                if getattr(self, "_send_tmpl", None) is None:
+                    self._send_tmpl = SendMessageCommand("", None)
+                self._send_tmpl.message, self._send_tmpl.destination = str(a[1]), a[2]
+                p.send_communication_command(self._send_tmpl)
+            else:
+                p.send_communication_command(SendMessageCommand(str(a[1]), a[2]))
         elif k == "bcast":
-            p.send_communication_command(BroadcastMessageCommand(str(a[1])))
+            if CTX.scenario.get("reuse_commands"):
+                if getattr(self, "_bcast_tmpl", None) is None:
+                    self._bcast_tmpl = BroadcastMessageCommand("")
+                self._bcast_tmpl.message = str(a[1])
+                p.send_communication_command(self._bcast_tmpl)
+            else:
+                p.send_communication_command(BroadcastMessageCommand(str(a[1])))
         elif k == "bcastdst":
             p.send_communication_command(CommunicationCommand(CommunicationCommandType.BROADCAST, str(a[1]), a[2]))
         elif k == "goto":
@@ -211,7 +227,7 @@ class ScriptedProtocol(IProtocol):
 
     def handle_telemetry(self, telemetry: Telemetry):
         p = telemetry.current_position
-        self._fire("telem", None, "telem %s %s %s" % (fhex(p[0]), fhex(p[1]), fhex(p[2])))
+        self._fire("telem", (float(p[0]), float(p[1]), float(p[2])), "telem %s %s %s" % (fhex(p[0]), fhex(p[1]), fhex(p[2])))
 
     def finish(self):
         self._fire("finish", None, "finish")
@@ -441,6 +457,8 @@ def _assert_line(e):
 def _sact_text(a):
     if a[0] == "settimer":
         return "settimer %d %s %s" % (a[1], a[2], fhex(a[3]))
+    if a[0] == "gotohere":
+        return "gotohere"
     return _act_str(a)
 
 
